@@ -365,6 +365,13 @@ func (r *registry) acquireAccessToken(ctx context.Context, requiredScope, wantSc
 	}
 	var expires time.Time
 	now := time.Now().UTC()
+	if issuedAt, err := time.Parse(time.RFC3339, tok.IssuedAt); err == nil && issuedAt.Before(now) {
+		// The token's lifetime started when it was issued, which
+		// can be some time ago when the server caches its tokens.
+		// Note: never extend the lifetime beyond what it would be
+		// without issued_at: the server's clock might be ahead of ours.
+		now = issuedAt.UTC()
+	}
 	if tok.ExpiresIn == 0 {
 		expires = now.Add(60 * time.Second) // TODO link to where this is mentioned
 	} else {
@@ -468,6 +475,12 @@ type wireToken struct {
 	// to 60 seconds. For compatibility with older clients, a token
 	// should never be returned with less than 60 seconds to live.
 	ExpiresIn int `json:"expires_in"`
+
+	// IssuedAt optionally holds the RFC3339-serialized UTC
+	// standard time at which a given token was issued. If
+	// issued_at is omitted, the expiration is from when the token
+	// exchange completed.
+	IssuedAt string `json:"issued_at"`
 }
 
 func (r *registry) doTokenRequest(req *http.Request) (*wireToken, error) {
